@@ -372,7 +372,7 @@ theorem addChar_ink (b b' : WB) (m : WS) (mt wt : Tag) (cur cur' : Bool) (c : Ch
     b'.ink = b.ink ++ keep [c] := by
   unfold WB.addChar at h
   simp only at h
-  generalize hr : (if (c.ws && decide (b.wordlen > 0)) = true then b.flushWord m else Except.ok b) = r at h
+  generalize hr : (if (c.ws && !b.word.noContent) = true then b.flushWord m else Except.ok b) = r at h
   cases r with
   | error e => simp at h
   | ok b1 =>
